@@ -68,7 +68,7 @@ func (c *exitAfterDeferChecker) VisitFuncDecl(fn *ast.FuncDecl) {
 				return true
 			}
 			if deferStmt != nil {
-				switch qualifiedName(n.Fun) {
+				switch resolvedQualifiedName(c.ctx, n.Fun) {
 				case "log.Fatal", "log.Fatalf", "log.Fatalln", "os.Exit":
 					c.warn(n, deferStmt)
 					return false
